@@ -90,6 +90,9 @@ class Report:
         wall = time.time() - self.t0
         if self.short:
             broken = '; '.join(self.short + ([broken] if broken else []))
+            # a rule that found fewer instances than confirmed did not see the code it judges: its own reports are not decisions
+            short_rules = {m.split(':')[0] for m in self.short}
+            self.violations = [v for v in self.violations if v['key'].split('|')[0] not in short_rules]
         evdir = os.environ.get('VERIF_EVIDENCE_DIR') or os.path.join(VERIF, 'evidence')     # self-tests on scratch copies write elsewhere
         outdir = os.environ.get('VERIF_OUT_DIR') or os.path.join(VERIF, 'out')
         os.makedirs(evdir, exist_ok=True)
